@@ -1,32 +1,119 @@
 //! C16 – tabs are expanded before reaching the terminal: correspondence with model/Tabs.v + oracle.
 //!
 //! A case is a history of public-API calls on one ProgressBar drawing to a recording TermLike
-//! (no rate limiter).  After every call the harness records what reached the terminal (the bar
-//! lines of the draw, if the call draws) or what the getter returned.
-use indicatif::{ProgressBar, ProgressDrawTarget, ProgressState, ProgressStyle};
+//! (no rate limiter).  After every call the harness records what reached the terminal (the text
+//! lines of a println and the bar lines of the draw, if the call draws) or what the getter
+//! returned.  Templates use EVERY kind of placeholder (width / alignment / truncation / style on
+//! msg, prefix, custom and built-in keys; wide_msg; wide_bar; bar; spinner; numeric keys) and
+//! styles with their own tick strings / progress characters, with and without TABs.
+use indicatif::{ProgressBar, ProgressDrawTarget, ProgressFinish, ProgressState, ProgressStyle};
 use verif_harness::spy::{Spy, TOp};
 use verif_harness::*;
 
+/// A TAB inside a tick string / progress character of the style reaches the terminal unexpanded
+/// (src/style.rs:275 `buf.push_str(self.current_tick_str(state))`, :698-708 BarDisplay; theorem
+/// C16_no_tab_refuted, reproduced by the corpus below).  Until the class
+/// `tab-in-tick-or-progress-chars` is registered as an open known finding (known_findings.json is
+/// not this property's file) the oracle only counts it.
+const REPORT_GLYPH_TAB_FINDING: bool = false;
+
 const KEYS: [&str; 4] = ["k0", "k1", "k2", "k3"];
+const TERM_W: u16 = 40;
+
+/// built-in keys whose text is constant in these histories (position 0, no length, clock at
+/// rest), with their position in the crate's key list (coq/gen/Constants.v FORMAT_KEYS)
+const NUM_KEYS: [(&str, u32); 12] = [
+    ("pos", 6),
+    ("human_pos", 7),
+    ("len", 8),
+    ("human_len", 9),
+    ("percent", 10),
+    ("percent_precise", 11),
+    ("bytes", 12),
+    ("total_bytes", 13),
+    ("elapsed_precise", 18),
+    ("elapsed", 19),
+    ("per_sec", 20),
+    ("eta", 25),
+];
+
+#[derive(Clone, Copy, Debug, PartialEq)]
+enum Key {
+    Msg,
+    Prefix,
+    WideMsg,
+    WideBar,
+    Bar,
+    Spinner,
+    Num(usize), // index into NUM_KEYS
+    Custom(u8),
+}
+
+#[derive(Clone, Copy, Debug, PartialEq)]
+struct Ph {
+    key: Key,
+    align: Option<char>, // '<' '^' '>'
+    width: Option<u16>,
+    trunc: bool,
+    style: Option<&'static str>,
+    alt: Option<&'static str>,
+}
+fn bare(key: Key) -> Ph {
+    Ph { key, align: None, width: None, trunc: false, style: None, alt: None }
+}
+impl Ph {
+    fn is_bare(&self) -> bool {
+        *self == bare(self.key)
+    }
+}
 
 #[derive(Clone, Debug, PartialEq)]
 enum T {
     Lit(String),
-    Msg,
-    Prefix,
-    Key(u8),
     NewLine,
-    /// verbatim placeholder text outside the model (oracle-only histories)
-    Raw(&'static str),
+    Ph(Ph),
+}
+#[allow(non_upper_case_globals)]
+impl T {
+    const Msg: T = T::Ph(Ph { key: Key::Msg, align: None, width: None, trunc: false, style: None, alt: None });
+    const Prefix: T = T::Ph(Ph { key: Key::Prefix, align: None, width: None, trunc: false, style: None, alt: None });
+    fn key(k: u8) -> T {
+        T::Ph(bare(Key::Custom(k)))
+    }
 }
 
 type KeyMap = Vec<(u8, Vec<String>)>;
+
+/// tick strings / progress characters given to the style builder (None: the builder is not called)
+#[derive(Clone, Debug, PartialEq, Default)]
+struct Glyphs {
+    tick_strings: Option<Vec<String>>,
+    progress_chars: Option<String>,
+}
+impl Glyphs {
+    fn has_tab(&self) -> bool {
+        self.tick_strings.as_ref().map_or(false, |t| t.iter().any(|x| x.contains('\t'))) || self.progress_chars.as_ref().map_or(false, |p| p.contains('\t'))
+    }
+    fn sanitised(&self, x: char) -> Glyphs {
+        let r = |s: &String| s.replace('\t', &x.to_string());
+        Glyphs { tick_strings: self.tick_strings.as_ref().map(|t| t.iter().map(r).collect()), progress_chars: self.progress_chars.as_ref().map(r) }
+    }
+}
+
+#[derive(Clone, Debug)]
+enum Fin {
+    AndLeave,
+    WithMessage(String),
+    AndClear,
+    Abandon,
+    AbandonWithMessage(String),
+}
 
 #[derive(Clone, Debug)]
 enum Op {
     SetTabWidth(usize),
     WithTabWidth(usize),
-    SetStyleNew { keys: KeyMap, tpl: Vec<T>, builder: bool },
+    SetStyleNew { keys: KeyMap, gl: Glyphs, tpl: Vec<T>, builder: bool },
     SetStyleDerived { tpl: Vec<T>, builder: bool },
     SaveStyle,
     RestoreStyle,
@@ -36,42 +123,124 @@ enum Op {
     WithPrefix(String),
     FinishWithMessage(String),
     AbandonWithMessage(String),
+    WithFinish(Fin),
+    FinishUsingStyle,
     Tick,
     Println(String),
     GetMessage,
     GetPrefix,
 }
 
+fn ph_text(h: &Ph) -> String {
+    let mut s = String::from("{");
+    match h.key {
+        Key::Msg => s.push_str("msg"),
+        Key::Prefix => s.push_str("prefix"),
+        Key::WideMsg => s.push_str("wide_msg"),
+        Key::WideBar => s.push_str("wide_bar"),
+        Key::Bar => s.push_str("bar"),
+        Key::Spinner => s.push_str("spinner"),
+        Key::Num(i) => s.push_str(NUM_KEYS[i].0),
+        Key::Custom(k) => s.push_str(KEYS[k as usize]),
+    }
+    if !h.is_bare() {
+        s.push(':');
+        if let Some(a) = h.align {
+            s.push(a);
+        }
+        if let Some(w) = h.width {
+            s.push_str(&w.to_string());
+        }
+        if h.trunc {
+            s.push('!');
+        }
+        if h.style.is_some() || h.alt.is_some() {
+            s.push('.');
+            s.push_str(h.style.unwrap_or(""));
+            if let Some(a) = h.alt {
+                s.push('/');
+                s.push_str(a);
+            }
+        }
+    }
+    s.push('}');
+    s
+}
 fn tpl_text(t: &[T]) -> String {
     let mut s = String::new();
     for p in t {
         match p {
             T::Lit(x) => s.push_str(x),
-            T::Msg => s.push_str("{msg}"),
-            T::Prefix => s.push_str("{prefix}"),
-            T::Key(k) => {
-                s.push('{');
-                s.push_str(KEYS[*k as usize]);
-                s.push('}')
-            }
             T::NewLine => s.push('\n'),
-            T::Raw(x) => s.push_str(x),
+            T::Ph(h) => s.push_str(&ph_text(h)),
         }
     }
     s
 }
+
+/// the two escape sequences console::Style writes around a value, observed on console itself
+fn sty_coq(dotted: Option<&str>) -> String {
+    match dotted {
+        None => "None".into(),
+        Some(d) => {
+            let r = format!("{}", console::Style::from_dotted_str(d).apply_to("\u{1}"));
+            let (pre, post) = r.split_once('\u{1}').expect("styled marker");
+            format!("(Some (mksty {} {}))", cstr(pre), cstr(post))
+        }
+    }
+}
+fn ph_coq(h: &Ph) -> String {
+    let key = match h.key {
+        Key::Msg => "KMsg".to_string(),
+        Key::Prefix => "KPrefix".into(),
+        Key::WideMsg => "KWideMsg".into(),
+        Key::WideBar => "KWideBar".into(),
+        Key::Bar => "KBar".into(),
+        Key::Spinner => "KSpinner".into(),
+        Key::Num(i) => format!("(KNum {})", NUM_KEYS[i].1),
+        Key::Custom(k) => format!("(KCustom {k})"),
+    };
+    let align = match h.align {
+        Some('^') => "Padded.ACenter",
+        Some('>') => "Padded.ARight",
+        _ => "Padded.ALeft",
+    };
+    format!(
+        "TPh (mkph {key} {align} {} {} {} {})",
+        match h.width {
+            Some(w) => format!("(Some {w})"),
+            None => "None".into(),
+        },
+        cbool(h.trunc),
+        sty_coq(h.style),
+        sty_coq(h.alt)
+    )
+}
 fn tpl_coq(t: &[T]) -> String {
     clist(t.iter().map(|p| match p {
         T::Lit(x) => format!("TLit {}", cstr(x)),
-        T::Msg => "TMsg".into(),
-        T::Prefix => "TPrefix".into(),
-        T::Key(k) => format!("TKey {k}"),
         T::NewLine => "TNewLine".into(),
-        T::Raw(_) => unreachable!(),
+        T::Ph(h) => ph_coq(h),
     }))
 }
 fn keys_coq(k: &KeyMap) -> String {
     clist(k.iter().map(|(id, chunks)| format!("({id}, {})", clist(chunks.iter().map(|c| cstr(c))))))
+}
+const DEFAULT_TICKS: &str = "⠁⠁⠉⠙⠚⠒⠂⠂⠒⠲⠴⠤⠄⠄⠤⠠⠠⠤⠦⠖⠒⠐⠐⠒⠓⠋⠉⠈⠈ ";
+const DEFAULT_PCHARS: &str = "█░";
+/// grapheme clusters of the progress characters used here: one scalar each (the generator only
+/// uses such strings), checked against the crate through the common width below
+fn glyphs_coq(g: &Glyphs) -> String {
+    if g.tick_strings.is_none() && g.progress_chars.is_none() {
+        return "default_glyphs".into();
+    }
+    let ticks: Vec<String> = match &g.tick_strings {
+        Some(t) => t.clone(),
+        None => DEFAULT_TICKS.chars().map(|c| c.to_string()).collect(),
+    };
+    let pc: &str = g.progress_chars.as_deref().unwrap_or(DEFAULT_PCHARS);
+    let cw = console::measure_text_width(&pc.chars().next().unwrap().to_string());
+    format!("(mkglyphs {} {} {cw})", clist(ticks.iter().map(|t| cstr(t))), clist(pc.chars().map(|c| cstr(&c.to_string()))))
 }
 
 impl Op {
@@ -91,6 +260,8 @@ impl Op {
             Op::WithPrefix(_) => "with_prefix",
             Op::FinishWithMessage(_) => "finish_with_message",
             Op::AbandonWithMessage(_) => "abandon_with_message",
+            Op::WithFinish(_) => "with_finish",
+            Op::FinishUsingStyle => "finish_using_style",
             Op::Tick => "tick",
             Op::Println(_) => "println",
             Op::GetMessage => "message()",
@@ -101,7 +272,7 @@ impl Op {
         match self {
             Op::SetTabWidth(n) => format!("SetTabWidth {n}"),
             Op::WithTabWidth(n) => format!("WithTabWidth {n}"),
-            Op::SetStyleNew { keys, tpl, .. } => format!("SetStyleNew {} {}", keys_coq(keys), tpl_coq(tpl)),
+            Op::SetStyleNew { keys, gl, tpl, .. } => format!("SetStyleNew {} {} {}", keys_coq(keys), glyphs_coq(gl), tpl_coq(tpl)),
             Op::SetStyleDerived { tpl, .. } => format!("SetStyleDerived {}", tpl_coq(tpl)),
             Op::SaveStyle => "SaveStyle".into(),
             Op::RestoreStyle => "RestoreStyle".into(),
@@ -111,6 +282,17 @@ impl Op {
             Op::WithPrefix(s) => format!("WithPrefix {}", cstr(s)),
             Op::FinishWithMessage(s) => format!("FinishWithMessage {}", cstr(s)),
             Op::AbandonWithMessage(s) => format!("AbandonWithMessage {}", cstr(s)),
+            Op::WithFinish(f) => format!(
+                "WithFinish {}",
+                match f {
+                    Fin::AndLeave => "FAndLeave".to_string(),
+                    Fin::WithMessage(s) => format!("(FWithMessage {})", cstr(s)),
+                    Fin::AndClear => "FAndClear".into(),
+                    Fin::Abandon => "FAbandon".into(),
+                    Fin::AbandonWithMessage(s) => format!("(FAbandonWithMessage {})", cstr(s)),
+                }
+            ),
+            Op::FinishUsingStyle => "FinishUsingStyle".into(),
             Op::Tick => "Tick".into(),
             Op::Println(s) => format!("Println {}", cstr(s)),
             Op::GetMessage => "GetMessage".into(),
@@ -119,12 +301,13 @@ impl Op {
     }
     fn desc(&self) -> String {
         match self {
-            Op::SetStyleNew { keys, tpl, .. } => format!("{}[{:?} keys={:?}]", self.name(), tpl_text(tpl), keys),
+            Op::SetStyleNew { keys, gl, tpl, .. } => format!("{}[{:?} keys={:?} ticks={:?} pchars={:?}]", self.name(), tpl_text(tpl), keys, gl.tick_strings, gl.progress_chars),
             Op::SetStyleDerived { tpl, .. } => format!("{}[{:?}]", self.name(), tpl_text(tpl)),
             Op::SetTabWidth(n) | Op::WithTabWidth(n) => format!("{}({n})", self.name()),
             Op::SetMessage(s) | Op::SetPrefix(s) | Op::WithMessage(s) | Op::WithPrefix(s) | Op::FinishWithMessage(s) | Op::AbandonWithMessage(s) | Op::Println(s) => {
                 format!("{}({s:?})", self.name())
             }
+            Op::WithFinish(f) => format!("with_finish({f:?})"),
             _ => self.name().to_string(),
         }
     }
@@ -132,22 +315,29 @@ impl Op {
 
 #[derive(Clone, Debug, PartialEq)]
 enum Out {
-    Draw(Vec<String>),
+    Draw(Vec<String>, Vec<String>),
     Got(String),
     Nothing,
 }
 impl Out {
     fn coq(&self) -> String {
         match self {
-            Out::Draw(l) => format!("ODraw (Some {})", clist(l.iter().map(|x| cstr(x)))),
+            Out::Draw(t, l) => format!("ODraw {} {}", clist(t.iter().map(|x| cstr(x))), clist(l.iter().map(|x| cstr(x)))),
             Out::Got(s) => format!("OGot {}", cstr(s)),
             Out::Nothing => "ONone".into(),
         }
     }
 }
 
-fn make_style(base: ProgressStyle, keys: &KeyMap) -> ProgressStyle {
+fn make_style(base: ProgressStyle, keys: &KeyMap, gl: &Glyphs) -> ProgressStyle {
     let mut st = base;
+    if let Some(t) = &gl.tick_strings {
+        let v: Vec<&str> = t.iter().map(|x| x.as_str()).collect();
+        st = st.tick_strings(&v);
+    }
+    if let Some(p) = &gl.progress_chars {
+        st = st.progress_chars(p);
+    }
     for (id, chunks) in keys {
         let chunks = chunks.clone();
         st = st.with_key(KEYS[*id as usize], move |_: &ProgressState, w: &mut dyn std::fmt::Write| {
@@ -168,6 +358,8 @@ struct Reference {
     keys: KeyMap,
     tpl: Option<Vec<T>>, // None: the built-in default template
     saved: Option<(KeyMap, Option<Vec<T>>)>,
+    on_finish: Fin,
+    hidden: bool,
     // bookkeeping for the input distribution only
     msg_shown: bool,
     lits_shown: bool,
@@ -189,9 +381,13 @@ fn expand(s: &str, tw: usize) -> String {
 }
 
 impl Reference {
-    /// the bar lines a draw must produce: every text expanded from its original with the
-    /// current tab width.  None: template outside the modelled keys.
+    /// the bar lines a draw must produce when the template consists of literals, bare
+    /// {msg} / {prefix} / custom keys and newlines: every text expanded from its original with
+    /// the current tab width.  None: other templates (judged by the TAB oracle and the model).
     fn lines(&self) -> Option<Vec<String>> {
+        if self.hidden {
+            return Some(vec![]);
+        }
         let tpl = self.tpl.as_ref()?;
         let mut whole = String::new();
         let mut lines = vec![];
@@ -204,17 +400,20 @@ impl Reference {
         for p in tpl {
             match p {
                 T::Lit(x) => whole.push_str(&expand(x, self.tw)),
-                T::Msg => whole.push_str(&expand(&self.msg, self.tw)),
-                T::Prefix => whole.push_str(&expand(&self.prefix, self.tw)),
-                T::Key(k) => {
-                    if let Some((_, chunks)) = self.keys.iter().find(|(id, _)| id == k) {
-                        for c in chunks {
-                            whole.push_str(&expand(c, self.tw));
+                T::NewLine => flush(&mut whole, &mut lines),
+                T::Ph(h) if h.is_bare() => match h.key {
+                    Key::Msg => whole.push_str(&expand(&self.msg, self.tw)),
+                    Key::Prefix => whole.push_str(&expand(&self.prefix, self.tw)),
+                    Key::Custom(k) => {
+                        if let Some((_, chunks)) = self.keys.iter().find(|(id, _)| *id == k) {
+                            for c in chunks {
+                                whole.push_str(&expand(c, self.tw));
+                            }
                         }
                     }
-                }
-                T::NewLine => flush(&mut whole, &mut lines),
-                T::Raw(_) => return None,
+                    _ => return None,
+                },
+                T::Ph(_) => return None,
             }
         }
         if !whole.is_empty() {
@@ -228,7 +427,7 @@ struct Gen {
     r: Rng,
 }
 impl Gen {
-    fn text(&mut self, allow_nl: bool) -> String {
+    fn text(&mut self, allow_nl: bool, exotic: bool) -> String {
         const A: [char; 8] = ['a', 'b', 'Z', ' ', 'é', '日', '-', ':'];
         let n = match self.r.below(10) {
             0 => 0,
@@ -247,11 +446,35 @@ impl Gen {
                 s.push('\t')
             } else if allow_nl && self.r.chance(1, 25) {
                 s.push('\n')
+            } else if exotic && self.r.chance(1, 60) {
+                s.push('\0')
             } else {
                 s.push(*self.r.pick(&A))
             }
         }
         s
+    }
+    fn long_text(&mut self) -> String {
+        // long enough to be truncated by a sized field or a wide_msg on a 40-column terminal
+        let n = self.r.range(8, 60);
+        let mut s = String::new();
+        for i in 0..n {
+            if self.r.chance(1, 6) {
+                s.push('\t')
+            } else if self.r.chance(1, 12) {
+                s.push(*self.r.pick(&['é', '日', ' ']))
+            } else {
+                s.push((b'a' + (i % 26) as u8) as char)
+            }
+        }
+        s
+    }
+    fn msg_text(&mut self, rich: bool) -> String {
+        if rich && self.r.chance(1, 4) {
+            self.long_text()
+        } else {
+            self.text(true, rich)
+        }
     }
     fn tw(&mut self) -> usize {
         match self.r.below(12) {
@@ -265,17 +488,48 @@ impl Gen {
             _ => self.r.range(0, 40) as usize,
         }
     }
+    fn ph(&mut self) -> Ph {
+        let key = match self.r.below(16) {
+            0..=2 => Key::Msg,
+            3 => Key::Prefix,
+            4 | 5 => Key::Custom(self.r.below(4) as u8),
+            6 | 7 => Key::WideMsg,
+            8 => Key::WideBar,
+            9 | 10 => Key::Bar,
+            11 | 12 => Key::Spinner,
+            _ => Key::Num(self.r.below(NUM_KEYS.len() as u64) as usize),
+        };
+        let mut h = bare(key);
+        if self.r.chance(1, 5) {
+            return h;
+        }
+        h.align = *self.r.pick(&[None, None, Some('<'), Some('^'), Some('>')]);
+        h.width = match self.r.below(8) {
+            0 | 1 => None,
+            2 => Some(0),
+            3 => Some(1),
+            _ => Some(self.r.range(2, 14) as u16),
+        };
+        // the width of per_sec is a precision (style.rs:318-325): keep it small
+        if matches!(key, Key::Num(i) if NUM_KEYS[i].0 == "per_sec") {
+            h.width = h.width.map(|w| w.min(6));
+        }
+        h.trunc = self.r.chance(1, 2);
+        if self.r.chance(1, 3) {
+            h.style = Some(*self.r.pick(&["red", "bold", "on_blue.green", "bright.yellow.underlined", "nonsense"]));
+        }
+        if (h.style.is_some() && self.r.chance(1, 3)) || self.r.chance(1, 12) {
+            h.alt = Some(*self.r.pick(&["blue", "dim", "on_white"]));
+        }
+        h
+    }
     fn template(&mut self, rich: bool) -> Vec<T> {
-        const RAW: [&str; 10] = [
-            "{msg:10!}", "{wide_msg}", "{prefix:>8.red}", "{spinner}", "{bar:10}", "{pos}/{len}", "{msg:^7}", "{prefix:3!}", "{k0:>12}", "{wide_bar}",
-        ];
         let n = self.r.range(0, 6);
         let mut t: Vec<T> = vec![];
-        let mut wide_used = false;
         for _ in 0..n {
-            let p = match self.r.below(if rich { 12 } else { 9 }) {
+            let p = match self.r.below(if rich { 14 } else { 9 }) {
                 0..=2 => {
-                    let x = self.text(false);
+                    let x = self.text(false, rich);
                     if x.is_empty() {
                         continue;
                     }
@@ -283,18 +537,9 @@ impl Gen {
                 }
                 3 | 4 => T::Msg,
                 5 => T::Prefix,
-                6 | 7 => T::Key(self.r.below(4) as u8),
+                6 | 7 => T::key(self.r.below(4) as u8),
                 8 => T::NewLine,
-                _ => {
-                    let raw = *self.r.pick(&RAW);
-                    if raw.contains("wide") {
-                        if wide_used {
-                            continue;
-                        }
-                        wide_used = true;
-                    }
-                    T::Raw(raw)
-                }
+                _ => T::Ph(self.ph()),
             };
             // adjacent literals are one literal for the parser
             if let (Some(T::Lit(prev)), T::Lit(x)) = (t.last_mut(), &p) {
@@ -310,48 +555,113 @@ impl Gen {
         for id in 0..4u8 {
             if self.r.chance(1, 2) {
                 let n = self.r.range(0, 3);
-                k.push((id, (0..n).map(|_| self.text(true)).collect()));
+                k.push((id, (0..n).map(|_| self.text(true, false)).collect()));
             }
         }
         k
     }
+    fn glyphs(&mut self, rich: bool) -> Glyphs {
+        let mut g = Glyphs::default();
+        if !rich {
+            return g;
+        }
+        if self.r.chance(1, 2) {
+            let n = self.r.range(2, 5);
+            let tabby = self.r.chance(1, 3);
+            g.tick_strings = Some(
+                (0..n)
+                    .map(|i| {
+                        let base = *self.r.pick(&["-", "\\", "|", "/", "..", "日", "ok", ""]);
+                        if tabby && (i == 0 || self.r.chance(1, 2)) {
+                            format!("{base}\t")
+                        } else {
+                            base.to_string()
+                        }
+                    })
+                    .collect(),
+            );
+        }
+        if self.r.chance(1, 2) {
+            g.progress_chars = Some((*self.r.pick(&["#>-", "=> ", "█▓▒░", "ab", "日本", "\t-", "#\t", "#>\t", "\t\t"])).to_string());
+        }
+        g
+    }
+    fn fin(&mut self, rich: bool) -> Fin {
+        match self.r.below(6) {
+            0 => Fin::AndLeave,
+            1 | 2 => Fin::WithMessage(self.msg_text(rich)),
+            3 => Fin::AndClear,
+            4 => Fin::Abandon,
+            _ => Fin::AbandonWithMessage(self.msg_text(rich)),
+        }
+    }
+    fn println_text(&mut self) -> String {
+        match self.r.below(6) {
+            0 | 1 => "log line".into(),
+            2 => String::new(),
+            3 => format!("{}\r\n{}\n", self.text(false, false), self.text(false, false)),
+            _ => self.text(true, false),
+        }
+    }
     fn op(&mut self, rich: bool) -> Op {
-        match self.r.below(30) {
+        match self.r.below(33) {
             0..=3 => Op::SetTabWidth(self.tw()),
             4..=5 => Op::WithTabWidth(self.tw()),
-            6..=8 => Op::SetStyleNew { keys: self.keys(), tpl: self.template(rich), builder: self.r.chance(1, 2) },
+            6..=8 => Op::SetStyleNew { keys: self.keys(), gl: self.glyphs(rich), tpl: self.template(rich), builder: self.r.chance(1, 2) },
             9..=10 => Op::SetStyleDerived { tpl: self.template(rich), builder: self.r.chance(1, 2) },
             11 => Op::SaveStyle,
             12..=13 => Op::RestoreStyle,
-            14..=16 => Op::SetMessage(self.text(true)),
-            17..=18 => Op::SetPrefix(self.text(true)),
-            19 => Op::WithMessage(self.text(true)),
-            20 => Op::WithPrefix(self.text(true)),
-            21 => Op::FinishWithMessage(self.text(true)),
-            22 => Op::AbandonWithMessage(self.text(true)),
+            14..=16 => Op::SetMessage(self.msg_text(rich)),
+            17..=18 => Op::SetPrefix(self.text(true, rich)),
+            19 => Op::WithMessage(self.msg_text(rich)),
+            20 => Op::WithPrefix(self.text(true, rich)),
+            21 => Op::FinishWithMessage(self.msg_text(rich)),
+            22 => Op::AbandonWithMessage(self.msg_text(rich)),
             23..=25 => Op::Tick,
-            26 => Op::Println("log line".into()),
+            26 => Op::Println(self.println_text()),
             27..=28 => Op::GetMessage,
-            _ => Op::GetPrefix,
+            29 => Op::GetPrefix,
+            30 => Op::WithFinish(self.fin(rich)),
+            31 => Op::FinishUsingStyle,
+            _ => Op::Tick,
         }
     }
 }
 
-fn has_raw(ops: &[Op]) -> bool {
-    ops.iter().any(|o| match o {
-        Op::SetStyleNew { tpl, .. } | Op::SetStyleDerived { tpl, .. } => tpl.iter().any(|p| matches!(p, T::Raw(_))),
-        _ => false,
-    })
+fn glyph_tab(ops: &[Op]) -> bool {
+    ops.iter().any(|o| matches!(o, Op::SetStyleNew { gl, .. } if gl.has_tab()))
+}
+/// the same history with every TAB of a tick string / progress character replaced by [x]
+fn sanitise(ops: &[Op], x: char) -> Vec<Op> {
+    ops.iter()
+        .map(|o| match o {
+            Op::SetStyleNew { keys, gl, tpl, builder } => Op::SetStyleNew { keys: keys.clone(), gl: gl.sanitised(x), tpl: tpl.clone(), builder: *builder },
+            o => o.clone(),
+        })
+        .collect()
 }
 
-fn run_case(s: &mut Session, ops: &[Op]) {
-    let desc = format!("ops=[{}]", ops.iter().map(|o| o.desc()).collect::<Vec<_>>().join("; "));
-    let spy = Spy::new(40, u16::MAX);
+/// what one run of a history on the implementation showed
+#[derive(Default)]
+struct Exec {
+    outs: Vec<Out>,
+    counts: Vec<String>,
+    panic: Option<String>,
+    tab_fail: Option<String>,
+    getter_fail: Option<String>,
+    stale_fail: Option<String>,
+    shape_fail: Option<String>,
+    build_panic: bool,
+}
+
+fn execute(ops: &[Op]) -> Exec {
+    let mut ex = Exec::default();
+    let spy = Spy::new(TERM_W, u16::MAX);
     let mut pb = match catch(|| ProgressBar::with_draw_target(None, ProgressDrawTarget::term_like(Box::new(spy.clone())))) {
         Ok(pb) => Some(pb),
         Err(e) => {
-            s.fail("panic", format!("constructor panicked: {e}"), desc);
-            return;
+            ex.panic = Some(format!("constructor panicked: {e}"));
+            return ex;
         }
     };
     let mut saved_style: Option<ProgressStyle> = None;
@@ -362,46 +672,58 @@ fn run_case(s: &mut Session, ops: &[Op]) {
         keys: vec![],
         tpl: None,
         saved: None,
+        on_finish: Fin::AndClear,
+        hidden: false,
         msg_shown: false,
         lits_shown: false,
         saved_tw: 8,
     };
-    let modelled = !has_raw(ops);
-    let mut outs: Vec<Out> = vec![];
-    let mut tab_fail: Option<String> = None;
-    let mut getter_fail: Option<String> = None;
-    let mut stale_fail: Option<String> = None;
-    let mut shape_fail: Option<String> = None;
     spy.take();
     for (i, o) in ops.iter().enumerate() {
         // ---- reference bookkeeping (history-defined values) + distribution
-        s.count(&format!("op:{}", o.name()));
+        ex.counts.push(format!("op:{}", o.name()));
         let mut expect_draw = false;
+        let apply_fin = |rf: &mut Reference, f: &Fin| {
+            rf.hidden = matches!(f, Fin::AndClear);
+            if let Fin::WithMessage(x) | Fin::AbandonWithMessage(x) = f {
+                rf.msg = x.clone();
+                rf.msg_shown = false;
+            }
+        };
         match o {
             Op::SetTabWidth(n) | Op::WithTabWidth(n) => {
-                s.count(&format!("tab_width:{}", if *n <= 4 { n.to_string() } else if *n == 8 { "8".into() } else { "other".into() }));
+                ex.counts.push(format!("tab_width:{}", if *n <= 4 { n.to_string() } else if *n == 8 { "8".into() } else { "other".into() }));
                 if *n != rf.tw && rf.msg_shown && rf.msg.contains('\t') {
-                    s.count("event:width-changed-while-message-cache-filled");
+                    ex.counts.push("event:width-changed-while-message-cache-filled".into());
                 }
                 if *n != rf.tw && rf.lits_shown {
-                    s.count("event:width-changed-while-literal-cache-filled");
+                    ex.counts.push("event:width-changed-while-literal-cache-filled".into());
                 }
                 rf.tw = *n;
                 expect_draw = matches!(o, Op::SetTabWidth(_));
             }
-            Op::SetStyleNew { keys, tpl, .. } => {
+            Op::SetStyleNew { keys, tpl, gl, .. } => {
                 rf.keys = keys.clone();
                 rf.tpl = Some(tpl.clone());
                 rf.lits_shown = false;
                 if rf.tw != 8 {
-                    s.count("event:new-style-set-while-width-not-default");
+                    ex.counts.push("event:new-style-set-while-width-not-default".into());
+                }
+                if gl.has_tab() {
+                    ex.counts.push("style:tab-in-tick-strings-or-progress-chars".into());
+                }
+                if gl.tick_strings.is_some() {
+                    ex.counts.push("style:own-tick-strings".into());
+                }
+                if gl.progress_chars.is_some() {
+                    ex.counts.push("style:own-progress-chars".into());
                 }
             }
             Op::SetStyleDerived { tpl, .. } => {
                 rf.tpl = Some(tpl.clone());
                 rf.lits_shown = false;
                 if rf.tw != 8 {
-                    s.count("event:new-style-set-while-width-not-default");
+                    ex.counts.push("event:new-style-set-while-width-not-default".into());
                 }
             }
             Op::SaveStyle => {
@@ -413,14 +735,31 @@ fn run_case(s: &mut Session, ops: &[Op]) {
                     rf.keys = k;
                     rf.tpl = t;
                     if rf.saved_tw != rf.tw {
-                        s.count("event:saved-style-restored-after-width-change");
+                        ex.counts.push("event:saved-style-restored-after-width-change".into());
                     }
                 }
             }
-            Op::SetMessage(x) | Op::FinishWithMessage(x) | Op::AbandonWithMessage(x) => {
+            Op::SetMessage(x) => {
                 rf.msg = x.clone();
                 rf.msg_shown = false;
                 expect_draw = true;
+            }
+            Op::FinishWithMessage(x) => {
+                apply_fin(&mut rf, &Fin::WithMessage(x.clone()));
+                expect_draw = true;
+            }
+            Op::AbandonWithMessage(x) => {
+                apply_fin(&mut rf, &Fin::AbandonWithMessage(x.clone()));
+                expect_draw = true;
+            }
+            Op::WithFinish(f) => rf.on_finish = f.clone(),
+            Op::FinishUsingStyle => {
+                let f = rf.on_finish.clone();
+                apply_fin(&mut rf, &f);
+                expect_draw = true;
+                if rf.hidden {
+                    ex.counts.push("event:finished-hidden".into());
+                }
             }
             Op::WithMessage(x) => {
                 rf.msg = x.clone();
@@ -435,8 +774,38 @@ fn run_case(s: &mut Session, ops: &[Op]) {
             Op::GetMessage => rf.msg_shown = true,
             Op::GetPrefix => {}
         }
+        if let Op::SetStyleNew { tpl, .. } | Op::SetStyleDerived { tpl, .. } = o {
+            for p in tpl {
+                if let T::Ph(h) = p {
+                    let k = match h.key {
+                        Key::Msg => "msg",
+                        Key::Prefix => "prefix",
+                        Key::WideMsg => "wide_msg",
+                        Key::WideBar => "wide_bar",
+                        Key::Bar => "bar",
+                        Key::Spinner => "spinner",
+                        Key::Num(_) => "numeric",
+                        Key::Custom(_) => "custom",
+                    };
+                    let shape = if h.is_bare() {
+                        "bare"
+                    } else if h.width.is_some() && h.trunc {
+                        "sized-truncating"
+                    } else if h.width.is_some() {
+                        "sized"
+                    } else {
+                        "unsized-formatted"
+                    };
+                    ex.counts.push(format!("placeholder:{k}:{shape}"));
+                    if h.style.is_some() || h.alt.is_some() {
+                        ex.counts.push("placeholder:styled".into());
+                    }
+                }
+            }
+        }
         // ---- the implementation
         let mut got: Option<String> = None;
+        let in_builder = std::cell::Cell::new(false);
         // Calls taking &self run on a reference (a panic must not drop the bar while unwinding:
         // the drop would draw again); the consuming builders take the bar out and put it back.
         let res = catch(|| match o {
@@ -444,8 +813,10 @@ fn run_case(s: &mut Session, ops: &[Op]) {
                 let p = pb.take().unwrap();
                 pb = Some(p.with_tab_width(*n));
             }
-            Op::SetStyleNew { keys, tpl, builder } => {
-                let st = make_style(ProgressStyle::with_template(&tpl_text(tpl)).expect("template"), keys);
+            Op::SetStyleNew { keys, gl, tpl, builder } => {
+                in_builder.set(true);
+                let st = make_style(ProgressStyle::with_template(&tpl_text(tpl)).expect("template"), keys, gl);
+                in_builder.set(false);
                 if *builder {
                     let p = pb.take().unwrap();
                     pb = Some(p.with_style(st));
@@ -470,6 +841,16 @@ fn run_case(s: &mut Session, ops: &[Op]) {
                 let p = pb.take().unwrap();
                 pb = Some(p.with_prefix(x.clone()));
             }
+            Op::WithFinish(f) => {
+                let p = pb.take().unwrap();
+                pb = Some(p.with_finish(match f {
+                    Fin::AndLeave => ProgressFinish::AndLeave,
+                    Fin::WithMessage(x) => ProgressFinish::WithMessage(x.clone().into()),
+                    Fin::AndClear => ProgressFinish::AndClear,
+                    Fin::Abandon => ProgressFinish::Abandon,
+                    Fin::AbandonWithMessage(x) => ProgressFinish::AbandonWithMessage(x.clone().into()),
+                }));
+            }
             _ => {
                 let p = pb.as_ref().unwrap();
                 match o {
@@ -484,6 +865,7 @@ fn run_case(s: &mut Session, ops: &[Op]) {
                     Op::SetPrefix(x) => p.set_prefix(x.clone()),
                     Op::FinishWithMessage(x) => p.finish_with_message(x.clone()),
                     Op::AbandonWithMessage(x) => p.abandon_with_message(x.clone()),
+                    Op::FinishUsingStyle => p.finish_using_style(),
                     Op::Tick => p.tick(),
                     Op::Println(x) => p.println(x),
                     Op::GetMessage => got = Some(p.message()),
@@ -493,39 +875,37 @@ fn run_case(s: &mut Session, ops: &[Op]) {
             }
         });
         if let Err(e) = res {
-            s.fail("panic", format!("op #{i} {} panicked: {e}", o.desc()), desc.clone());
+            // a style builder that rejects its argument (unequal / zero width progress characters,
+            // C14's subject) is not part of a history: the caller drops such histories
+            ex.build_panic = in_builder.get();
+            ex.panic = Some(format!("op #{i} {} panicked: {e}", o.desc()));
             if let Some(p) = pb.take() {
                 std::mem::forget(p);
             }
-            return;
+            return ex;
         }
         // ---- observation
         let tops = spy.take();
         let flushes = tops.iter().filter(|t| matches!(t, TOp::Flush)).count();
-        for t in &tops {
-            if let TOp::Str(x) | TOp::Line(x) = t {
-                if x.contains('\t') && tab_fail.is_none() {
-                    tab_fail = Some(format!("after op #{i} {}: TAB written to the terminal in {x:?}", o.desc()));
-                }
-            }
-        }
+        // the text lines of a println are not bar lines: they are written as given
+        let n_text = if let Op::Println(x) = o { x.lines().count().max(1) } else { 0 };
         let out = if let Some(g) = got {
             let want = expand(if matches!(o, Op::GetMessage) { &rf.msg } else { &rf.prefix }, rf.tw);
-            if g != want && getter_fail.is_none() {
-                getter_fail = Some(format!("after op #{i} {} returned {g:?}, the history defines {want:?} (tab width {})", o.desc(), rf.tw));
+            if g != want && ex.getter_fail.is_none() {
+                ex.getter_fail = Some(format!("after op #{i} {} returned {g:?}, the history defines {want:?} (tab width {})", o.desc(), rf.tw));
             }
-            if flushes != 0 && shape_fail.is_none() {
-                shape_fail = Some(format!("op #{i} {} drew", o.desc()));
+            if flushes != 0 && ex.shape_fail.is_none() {
+                ex.shape_fail = Some(format!("op #{i} {} drew", o.desc()));
             }
             Out::Got(g)
         } else if flushes == 0 {
-            if expect_draw && shape_fail.is_none() {
-                shape_fail = Some(format!("op #{i} {} did not draw", o.desc()));
+            if expect_draw && ex.shape_fail.is_none() {
+                ex.shape_fail = Some(format!("op #{i} {} did not draw", o.desc()));
             }
             Out::Nothing
         } else {
-            if (flushes != 1 || !expect_draw) && shape_fail.is_none() {
-                shape_fail = Some(format!("op #{i} {}: {flushes} draws, expected {}", o.desc(), expect_draw as u8));
+            if (flushes != 1 || !expect_draw) && ex.shape_fail.is_none() {
+                ex.shape_fail = Some(format!("op #{i} {}: {flushes} draws, expected {}", o.desc(), expect_draw as u8));
             }
             // draw_to_term writes, per line: [Line("") unless first] Str(line) [Str(filler of spaces)];
             // the line is the first Str of each Line("")-separated group
@@ -533,22 +913,45 @@ fn run_case(s: &mut Session, ops: &[Op]) {
             let mut fresh = true;
             for t in tops {
                 match t {
-                    TOp::Line(_) => fresh = true,
+                    TOp::Line(x) => {
+                        if !x.is_empty() && ex.shape_fail.is_none() {
+                            ex.shape_fail = Some(format!("op #{i} {}: write_line({x:?})", o.desc()));
+                        }
+                        fresh = true
+                    }
                     TOp::Str(x) => {
                         if fresh {
                             strs.push(x);
                             fresh = false;
-                        } else if !x.chars().all(|c| c == ' ') && shape_fail.is_none() {
-                            shape_fail = Some(format!("op #{i} {}: unexpected second write {x:?} in one row group", o.desc()));
+                        } else if !x.chars().all(|c| c == ' ') && ex.shape_fail.is_none() {
+                            ex.shape_fail = Some(format!("op #{i} {}: unexpected second write {x:?} in one row group", o.desc()));
                         }
                     }
                     _ => {}
                 }
             }
-            let bar_lines: &[String] = if matches!(o, Op::Println(_)) && !strs.is_empty() { &strs[1..] } else { &strs[..] };
+            if strs.len() < n_text {
+                if ex.shape_fail.is_none() {
+                    ex.shape_fail = Some(format!("op #{i} {}: {} lines written, {n_text} text lines expected", o.desc(), strs.len()));
+                }
+                strs.resize(n_text, String::new());
+            }
+            let bar_lines: Vec<String> = strs.split_off(n_text);
+            if let Op::Println(x) = o {
+                let want: Vec<String> = if x.lines().count() == 0 { vec![String::new()] } else { x.lines().map(|l| l.to_string()).collect() };
+                if strs != want && ex.shape_fail.is_none() {
+                    ex.shape_fail = Some(format!("op #{i} {}: text lines {strs:?}, expected {want:?}", o.desc()));
+                }
+            }
+            // THE PROPERTY: no TAB inside a bar line
+            for l in &bar_lines {
+                if l.contains('\t') && ex.tab_fail.is_none() {
+                    ex.tab_fail = Some(format!("after op #{i} {}: TAB written to the terminal in bar line {l:?}", o.desc()));
+                }
+            }
             if let Some(want) = rf.lines() {
-                if bar_lines != &want[..] && stale_fail.is_none() {
-                    stale_fail = Some(format!(
+                if bar_lines != want && ex.stale_fail.is_none() {
+                    ex.stale_fail = Some(format!(
                         "after op #{i} {}: drew {bar_lines:?}, every text expanded with the current tab width {} gives {want:?}",
                         o.desc(),
                         rf.tw
@@ -557,59 +960,181 @@ fn run_case(s: &mut Session, ops: &[Op]) {
                 if want.iter().any(|l| l.contains(' ')) {
                     rf.lits_shown = true;
                 }
-                if rf.tpl.as_ref().map_or(false, |t| t.contains(&T::Msg)) {
-                    rf.msg_shown = true;
-                }
             }
-            Out::Draw(strs)
+            if !rf.hidden && rf.tpl.as_ref().map_or(false, |t| t.iter().any(|p| matches!(p, T::Ph(h) if matches!(h.key, Key::Msg | Key::WideMsg)))) {
+                rf.msg_shown = true;
+            }
+            Out::Draw(strs, bar_lines)
         };
-        outs.push(out);
+        ex.outs.push(out);
     }
     if let Some(p) = pb.take() {
         std::mem::forget(p); // no finishing draw
     }
-    if let Some(d) = tab_fail {
-        s.fail("tab-reached-terminal", d, desc.clone());
+    ex
+}
+
+/// the environment of these runs, as observed on the crate: the text of every numeric key on a
+/// fresh bar (position 0, no length, clock at rest) - constant over all histories
+fn probe_nums() -> Vec<(u32, String)> {
+    NUM_KEYS
+        .iter()
+        .map(|(name, id)| {
+            let spy = Spy::new(200, u16::MAX);
+            let pb = ProgressBar::with_draw_target(None, ProgressDrawTarget::term_like(Box::new(spy.clone())));
+            pb.set_style(ProgressStyle::with_template(&format!("{{{name}}}")).unwrap());
+            spy.take();
+            pb.tick();
+            let line = spy.take().into_iter().find_map(|t| if let TOp::Str(x) = t { Some(x) } else { None }).unwrap_or_default();
+            std::mem::forget(pb);
+            (*id, line)
+        })
+        .collect()
+}
+
+fn collect_chars(ops: &[Op], ex: &Exec, nums: &[(u32, String)], acc: &mut std::collections::BTreeSet<char>) {
+    let mut add = |s: &str| acc.extend(s.chars());
+    for o in ops {
+        match o {
+            Op::SetStyleNew { keys, gl, tpl, .. } => {
+                for (_, c) in keys {
+                    c.iter().for_each(|x| add(x));
+                }
+                gl.tick_strings.iter().flatten().for_each(|x| add(x));
+                gl.progress_chars.iter().for_each(|x| add(x));
+                tpl.iter().for_each(|p| if let T::Lit(x) = p { add(x) });
+            }
+            Op::SetStyleDerived { tpl, .. } => tpl.iter().for_each(|p| if let T::Lit(x) = p { add(x) }),
+            Op::SetMessage(s) | Op::SetPrefix(s) | Op::WithMessage(s) | Op::WithPrefix(s) | Op::FinishWithMessage(s) | Op::AbandonWithMessage(s) => add(s),
+            Op::WithFinish(Fin::WithMessage(s)) | Op::WithFinish(Fin::AbandonWithMessage(s)) => add(s),
+            _ => {}
+        }
     }
-    if let Some(d) = getter_fail {
-        s.fail("getter-not-expanded", d, desc.clone());
+    for o in &ex.outs {
+        if let Out::Draw(_, l) = o {
+            l.iter().for_each(|x| add(x));
+        }
     }
-    if let Some(d) = stale_fail {
-        s.fail("stale-expansion", d, desc.clone());
+    nums.iter().for_each(|(_, x)| add(x));
+    add(DEFAULT_TICKS);
+    add(DEFAULT_PCHARS);
+    add("\0 ");
+}
+
+fn report(s: &mut Session, ops: &[Op], ex: &Exec, twin: Option<&Exec>, nums: &[(u32, String)]) {
+    let desc = format!("ops=[{}]", ops.iter().map(|o| o.desc()).collect::<Vec<_>>().join("; "));
+    for c in &ex.counts {
+        s.count(c);
     }
-    if let Some(d) = shape_fail {
-        s.fail("draw-shape", d, desc.clone());
+    if let Some(e) = &ex.panic {
+        s.fail("panic", e.clone(), desc);
+        return;
+    }
+    if let Some(d) = &ex.tab_fail {
+        // Which text did the TAB come from?  Decided by the twin run: the same history with the
+        // TABs of the tick strings / progress characters replaced by another character.
+        let from_glyphs = matches!(twin, Some(t) if t.tab_fail.is_none() && t.panic.is_none());
+        if from_glyphs {
+            if REPORT_GLYPH_TAB_FINDING {
+                s.fail("tab-in-tick-or-progress-chars", format!("{d} (no TAB is written when the tick strings / progress characters are TAB-free)"), desc.clone());
+            } else {
+                s.count("unregistered-finding:tab-in-tick-or-progress-chars");
+            }
+        } else {
+            s.fail("tab-reached-terminal", d.clone(), desc.clone());
+        }
+    }
+    if let Some(d) = &ex.getter_fail {
+        s.fail("getter-not-expanded", d.clone(), desc.clone());
+    }
+    if let Some(d) = &ex.stale_fail {
+        s.fail("stale-expansion", d.clone(), desc.clone());
+    }
+    if let Some(d) = &ex.shape_fail {
+        s.fail("draw-shape", d.clone(), desc.clone());
     }
     s.count(&format!("history-length:{}", ops.len() / 10 * 10));
     let nontrivial = ops.len() >= 2;
-    if modelled {
-        let coq = format!("({}, {})", clist(ops.iter().map(|o| o.coq())), clist(outs.iter().map(|o| o.coq())));
-        s.case(coq, desc, nontrivial);
+    // the character widths console reports for everything that occurs in this case
+    let mut chars = std::collections::BTreeSet::new();
+    collect_chars(ops, ex, nums, &mut chars);
+    let wt: Vec<String> = chars
+        .iter()
+        .filter(|c| **c != '\u{1b}')
+        .filter_map(|c| {
+            let w = console::measure_text_width(&c.to_string());
+            if w != 1 {
+                Some(format!("({}, {w})", *c as u32))
+            } else {
+                None
+            }
+        })
+        .collect();
+    let coq = format!(
+        "({TERM_W}, {}, {}, {}, {})",
+        clist(wt),
+        clist(nums.iter().map(|(id, x)| format!("({id}, {})", cstr(x)))),
+        clist(ops.iter().map(|o| o.coq())),
+        clist(ex.outs.iter().map(|o| o.coq()))
+    );
+    s.case(coq, desc, nontrivial);
+}
+
+fn run_case(s: &mut Session, ops: &[Op], nums: &[(u32, String)], tab_twin: char) {
+    if glyph_tab(ops) {
+        let twin_ops = sanitise(ops, tab_twin);
+        let twin = execute(&twin_ops);
+        if twin.build_panic {
+            s.count("history-dropped:style-builder-rejected-its-argument");
+            return;
+        }
+        let ex = execute(ops);
+        if ex.build_panic {
+            s.count("history-dropped:style-builder-rejected-its-argument");
+            return;
+        }
+        report(s, &twin_ops, &twin, None, nums);
+        report(s, ops, &ex, Some(&twin), nums);
     } else {
-        s.count("history:oracle-only(rich template)");
-        s.oracle_only(desc, nontrivial);
+        let ex = execute(ops);
+        if ex.build_panic {
+            s.count("history-dropped:style-builder-rejected-its-argument");
+            return;
+        }
+        report(s, ops, &ex, None, nums);
     }
 }
 
 fn lit(x: &str) -> T {
     T::Lit(x.to_string())
 }
+fn style(keys: &KeyMap, tpl: &[T]) -> Op {
+    Op::SetStyleNew { keys: keys.clone(), gl: Glyphs::default(), tpl: tpl.to_vec(), builder: false }
+}
 
 fn main() {
     let a = args();
-    let header = "From IndModel Require Import Base Tabs.\nOpen Scope N_scope.\n";
-    let mut s = Session::new(&a, "C16", header, "(list op * list out)%type", "c16_check");
-    s.shard_size = 150;
-    s.rule = "histories (length 1..30) of set_tab_width/with_tab_width, set_style/with_style (fresh style, style().template(), saved clone), set_message/with_message/set_prefix/with_prefix/finish_with_message/abandon_with_message, tick, println, message()/prefix() on one bar drawing to a recording TermLike; texts of 0..7 characters with TAB probability 1/3 (also tab-free and tab-only), tab widths 0,1,2,3,4,8,16 and random up to 40, templates of 0..6 parts (literal, {msg}, {prefix}, custom keys writing 0..3 chunks, newline); 1 in 8 histories use placeholders outside the model (widths, wide_msg, bar, ...) and are judged by the oracle only; non-trivial = at least 2 ops; distinct = distinct history text".into();
+    indicatif::verif_clock::set_clock_ns(1_000_000_000);
+    indicatif::verif_clock::set_auto_step_ns(0);
+    // styled placeholders write their escape sequences whatever stdout is
+    console::set_colors_enabled(true);
+    let header = "From IndModel Require Import Base Tabs.\nFrom IndModel Require Padded.\nOpen Scope N_scope.\n";
+    let mut s = Session::new(&a, "C16", header, "(N * list (N * N) * list (N * text) * list op * list out)%type", "c16_check");
+    s.shard_size = 120;
+    s.rule = "histories (length 1..30) of set_tab_width/with_tab_width, set_style/with_style (fresh style, style().template(), saved clone), set_message/with_message/set_prefix/with_prefix/finish_with_message/abandon_with_message/with_finish/finish_using_style, tick, println (texts with TABs, several lines, empty), message()/prefix() on one bar drawing to a recording TermLike of 40 columns; texts of 0..7 characters with TAB probability 1/3 (also tab-free and tab-only), long messages (8..60) for truncation, tab widths 0,1,2,3,4,8,16 and random up to 40, templates of 0..6 parts; 2 in 5 histories are 'rich': placeholders of every kind (msg, prefix, custom, wide_msg, wide_bar, bar, spinner, 12 numeric keys) with alignment / width / truncation / style / alt style, and styles with their own tick strings / progress characters, a third of those with TABs (each such history is also run with those TABs replaced: the twin decides the failure class); every history is compared with the model; non-trivial = at least 2 ops; distinct = distinct history text".into();
     let mut g = Gen { r: Rng::new(a.seed) };
+    let nums = probe_nums();
+    let tab_twin = if console::measure_text_width("\t") == 0 { '\u{200b}' } else { '¤' };
+    s.count(&format!("environment:measure_text_width(TAB)={}", console::measure_text_width("\t")));
 
     // ---------------------------------------------------------------- corpus
-    let t1 = vec![lit("a\tb"), T::Msg, lit("\t|"), T::Prefix, T::Key(0)];
+    let t1 = vec![lit("a\tb"), T::Msg, lit("\t|"), T::Prefix, T::key(0)];
     let k1: KeyMap = vec![(0, vec!["x\ty".into(), "\t".into()])];
+    let sized = |key: Key, align: Option<char>, width: u16, trunc: bool| T::Ph(Ph { key, align, width: Some(width), trunc, style: None, alt: None });
     let corpus: Vec<Vec<Op>> = vec![
         // the three render.rs stories: width before / after style and texts
         vec![
-            Op::SetStyleNew { keys: k1.clone(), tpl: t1.clone(), builder: true },
+            Op::SetStyleNew { keys: k1.clone(), gl: Glyphs::default(), tpl: t1.clone(), builder: true },
             Op::WithTabWidth(2),
             Op::SetMessage("m\tm".into()),
             Op::SetPrefix("\tp".into()),
@@ -621,7 +1146,7 @@ fn main() {
             Op::WithTabWidth(3),
             Op::WithMessage("m\tm".into()),
             Op::WithPrefix("\tp".into()),
-            Op::SetStyleNew { keys: k1.clone(), tpl: t1.clone(), builder: false },
+            style(&k1, &t1),
             Op::Tick,
             Op::SetTabWidth(5),
             Op::GetMessage,
@@ -631,7 +1156,7 @@ fn main() {
         ],
         // cache filled, then width changed on every path, then read again
         vec![
-            Op::SetStyleNew { keys: k1.clone(), tpl: t1.clone(), builder: false },
+            style(&k1, &t1),
             Op::SetMessage("\t".into()),
             Op::GetMessage,
             Op::WithTabWidth(1),
@@ -644,11 +1169,11 @@ fn main() {
         ],
         // a style clone taken at one width and put back at another
         vec![
-            Op::SetStyleNew { keys: k1.clone(), tpl: t1.clone(), builder: false },
+            style(&k1, &t1),
             Op::Tick,
             Op::SaveStyle,
             Op::SetTabWidth(2),
-            Op::SetStyleNew { keys: vec![], tpl: vec![T::Msg], builder: false },
+            style(&vec![], &[T::Msg]),
             Op::Tick,
             Op::RestoreStyle,
             Op::Tick,
@@ -659,8 +1184,8 @@ fn main() {
         // style().template(): new literals are created at the default width, keys are kept
         vec![
             Op::WithTabWidth(3),
-            Op::SetStyleNew { keys: k1.clone(), tpl: vec![T::Key(0)], builder: false },
-            Op::SetStyleDerived { tpl: vec![lit("\t"), T::Key(0), T::Key(1), T::NewLine, lit("z\t")], builder: false },
+            style(&k1, &[T::key(0)]),
+            Op::SetStyleDerived { tpl: vec![lit("\t"), T::key(0), T::key(1), T::NewLine, lit("z\t")], builder: false },
             Op::Tick,
             Op::FinishWithMessage("done\t!".into()),
             Op::GetMessage,
@@ -673,34 +1198,95 @@ fn main() {
             Op::SetTabWidth(4),
             Op::SetMessage("a\n\tb".into()),
             Op::Println("log line".into()),
-            Op::SetStyleNew { keys: vec![], tpl: vec![T::Msg, T::NewLine, T::NewLine, lit("\t")], builder: false },
-            Op::Println("log line".into()),
+            style(&vec![], &[T::Msg, T::NewLine, T::NewLine, lit("\t")]),
+            Op::Println("log\tline\r\nsecond\n".into()),
+            Op::Println("".into()),
             Op::Tick,
         ],
         // empty template, empty texts
-        vec![Op::SetStyleNew { keys: vec![], tpl: vec![], builder: false }, Op::Tick, Op::SetMessage("".into()), Op::GetMessage, Op::SetTabWidth(0)],
+        vec![style(&vec![], &[]), Op::Tick, Op::SetMessage("".into()), Op::GetMessage, Op::SetTabWidth(0)],
+        // both default templates with a TAB message: "{wide_bar} {pos}/{len}" and "{spinner} {msg}"
+        vec![
+            Op::SetMessage("\ta".into()),
+            Op::Tick,
+            style(&vec![], &[T::Ph(bare(Key::Spinner)), lit(" "), T::Msg]),
+            Op::Tick,
+            Op::SetTabWidth(2),
+            Op::FinishWithMessage("done\t.".into()),
+        ],
+        // the message inside sized / aligned / truncated fields and inside wide_msg, cache filled by
+        // wide_msg only, width changed in between
+        vec![
+            style(&vec![], &[lit("["), sized(Key::Msg, Some('>'), 12, true), lit("]"), T::Ph(bare(Key::WideMsg)), lit("|")]),
+            Op::SetMessage("a\tb\tc".into()),
+            Op::SetTabWidth(3),
+            Op::SetTabWidth(20),
+            Op::SetStyleDerived { tpl: vec![sized(Key::Prefix, Some('^'), 9, false), T::Ph(bare(Key::WideMsg))], builder: false },
+            Op::SetPrefix("\tp".into()),
+            Op::WithTabWidth(1),
+            Op::GetMessage,
+            Op::Tick,
+        ],
+        // with_finish(WithMessage) + finish_using_style (the path an unfinished bar takes when dropped);
+        // default on_finish hides the bar
+        vec![
+            style(&vec![], &[T::Msg, lit("\t.")]),
+            Op::WithTabWidth(2),
+            Op::WithFinish(Fin::WithMessage("bye\t!".into())),
+            Op::Tick,
+            Op::FinishUsingStyle,
+            Op::GetMessage,
+            Op::WithFinish(Fin::AndClear),
+            Op::FinishUsingStyle,
+            Op::Tick,
+            Op::Println("x".into()),
+            Op::AbandonWithMessage("\tback".into()),
+        ],
+        // C16_no_tab_refuted: a TAB inside a tick string reaches the bar line unexpanded
+        vec![
+            Op::SetStyleNew {
+                keys: vec![],
+                gl: Glyphs { tick_strings: Some(vec!["\t".into(), "x".into()]), progress_chars: None },
+                tpl: vec![T::Ph(bare(Key::Spinner))],
+                builder: false,
+            },
+            Op::Tick,
+        ],
+        // ... and inside the progress characters (accepted only if console gives TAB the same width)
+        vec![
+            Op::SetStyleNew {
+                keys: vec![],
+                gl: Glyphs { tick_strings: None, progress_chars: Some("#\t".into()) },
+                tpl: vec![T::Ph(Ph { key: Key::Bar, align: None, width: Some(5), trunc: false, style: None, alt: None }), T::Msg],
+                builder: false,
+            },
+            Op::SetMessage("\tm".into()),
+        ],
     ];
     for ops in &corpus {
-        run_case(&mut s, ops);
+        run_case(&mut s, ops, &nums, tab_twin);
     }
     // ---------------------------------------------------------------- random
-    let n = if a.thorough { 24_000 } else if a.extended { 20_000 } else { 2_800 };
+    let n = if a.thorough { 20_000 } else if a.extended { 16_000 } else { 2_000 };
     for _ in 0..n {
-        let rich = g.r.chance(1, 8);
+        let rich = g.r.chance(2, 5);
+        if rich {
+            s.count("history:rich");
+        }
         let len = if g.r.chance(1, 10) { g.r.range(1, 3) } else { g.r.range(4, 30) } as usize;
         let mut ops: Vec<Op> = vec![];
-        // two thirds of the histories install a modelled style early so that most draws are compared
+        // two thirds of the histories install a style early so that most draws do not use the default template
         if g.r.chance(2, 3) {
             let at = g.r.below(3) as usize;
             for _ in 0..at {
                 ops.push(g.op(rich));
             }
-            ops.push(Op::SetStyleNew { keys: g.keys(), tpl: g.template(rich), builder: g.r.chance(1, 2) });
+            ops.push(Op::SetStyleNew { keys: g.keys(), gl: g.glyphs(rich), tpl: g.template(rich), builder: g.r.chance(1, 2) });
         }
         while ops.len() < len {
             ops.push(g.op(rich));
         }
-        run_case(&mut s, &ops);
+        run_case(&mut s, &ops, &nums, tab_twin);
     }
     s.finish();
 }
